@@ -1,7 +1,7 @@
 (* Extraction of the executable model and oracles.  ExtrOcamlBasic only: numbers stay
    the extracted inductives (positive / N / Z / nat). *)
 From Coq Require Import ExtrOcamlBasic ZArith.
-From ZV Require Import Str Dec Rx RegexSrc Sanitize SanitizeSpec SemVer Pep440 Calendar Timestamp Zerv Render Convert Bump Cli Hash Flow.
+From ZV Require Import Str Dec Rx RegexSrc Sanitize SanitizeSpec SemVer Pep440 Calendar Timestamp Zerv Render Convert Bump Ron Cli Hash Flow.
 Extraction Language OCaml.
 Extraction "Extract/model.ml"
   N.div N.modulo N.add N.mul Z.add
@@ -20,4 +20,5 @@ Extraction "Extract/model.ml"
   Zerv.schema_validate Zerv.default_prec Zerv.comp_value Zerv.comp_expanded Render.semver_of_zerv Render.pep_of_zerv Render.schema_with_zerv Render.fixed_schema
   Convert.render_cmd Convert.zerv_of_semver Convert.zerv_of_pep Convert.parse_version Convert.format_zerv
   Bump.apply_component_processing Bump.prec_order Cli.version_zerv Cli.version_output Cli.to_zerv Cli.validate_args Cli.resolve_args
+  Ron.zerv_ron Ron.obj_insert Str.is_ascii
   Hash.hash_str Hash.hash_int Hash.hash_hex Flow.flow_zerv Flow.flow_output Flow.resolve_for_branch Flow.default_rules Flow.rule_valid.
